@@ -45,7 +45,9 @@ func (n NameTrie) Collect(typeExpr ast.BaseTerm) {
 	walk := func(typeExpr ast.BaseTerm) {
 		switch x := typeExpr.(type) {
 		case ast.Constant:
-			if IsBaseTypeExpression(x) {
+			if isBuiltinTypeName(x) {
+				// /time and /duration are types of instants and durations, not
+				// prefixes of names: the name /time/x has type /name.
 				return
 			}
 			if x.Type == ast.NameType {
